@@ -286,3 +286,182 @@ pub proof fn lemma_remove_inv(w: World, w2: World, id: u32)
         assert(sa_meta(w2, j) == sa_meta(w, j)); assert(sa_exists(w, j));
     }
 }
+
+// ---- the concrete edits are these abstract operations ----
+pub open spec fn fp_swapped(w: World, w2: World, old_fp: Seq<u8>, new_fp: Seq<u8>) -> bool {
+    forall|h: BytesN<32>| #[trigger] fp_has(w2, h) == ((h@ == new_fp && new_fp != old_fp) || (fp_has(w, h) && h@ != old_fp))
+}
+pub open spec fn fp_same(w: World, w2: World) -> bool { forall|h: BytesN<32>| #[trigger] fp_has(w2, h) == fp_has(w, h) }
+
+pub proof fn lemma_bytesn_ext(h: BytesN<32>, x: Seq<u8>)
+    ensures (h@ == x) <==> (h == BytesN::<32> { s: Ghost(x) }),
+{}
+/// the fingerprint entries after "set new, delete old"
+pub proof fn lemma_fp_swap(w: World, w2: World, ct: ContextRuleType, s0: Seq<Signer>, p0: Seq<Address>, s1: Seq<Signer>, p1: Seq<Address>)
+    requires forall|h: BytesN<32>| #[trigger] fp_has(w2, h) == fp_has(swap_fp_post(w, ct, s0, p0, s1, p1), h),
+    ensures fp_swapped(w, w2, fp_spec(ct, s0, p0), fp_spec(ct, s1, p1)),
+{
+    broadcast use sdk_store;
+    assert forall|h: BytesN<32>| #[trigger] fp_has(w2, h) == ((h@ == fp_spec(ct, s1, p1) && fp_spec(ct, s1, p1) != fp_spec(ct, s0, p0)) || (fp_has(w, h) && h@ != fp_spec(ct, s0, p0))) by {
+        lemma_bytesn_ext(h, fp_spec(ct, s1, p1));
+        lemma_bytesn_ext(h, fp_spec(ct, s0, p0));
+        assert(fp_has(w2, h) == fp_has(swap_fp_post(w, ct, s0, p0, s1, p1), h));
+    }
+}
+pub proof fn lemma_upd_meta(w: World, id: u32, name: String, vu: Option<u32>)
+    requires inv_ids(w), inv_rules(w), sa_exists(w, id),
+    ensures ({
+        let w2 = upd_meta_post(w, id, name, vu);
+        //@@ C20:lemma.update_meta.is_map_update
+        &&& sa_meta(w2, id) == Some(Meta { name: name, context_type: sa_meta(w, id).unwrap().context_type, valid_until: vu })
+        &&& rule_updated(w, w2, id, sa_signers(w, id), sa_policies(w, id))
+        &&& fp_same(w, w2)
+        //@@ C20:lemma.update_meta.keeps_invariant
+        &&& inv_ids(w2) && inv_rules(w2)
+    }),
+{
+    broadcast use sdk_store;
+    let w2 = upd_meta_post(w, id, name, vu);
+    assert(rule_updated(w, w2, id, sa_signers(w, id), sa_policies(w, id)));
+    lemma_update_inv(w, w2, id, sa_signers(w, id), sa_policies(w, id));
+}
+pub proof fn lemma_add_signer(w: World, id: u32, signer: Signer)
+    requires inv_ids(w), inv_rules(w), add_signer_guard(w, id, signer),
+    ensures ({
+        let w2 = add_signer_post(w, id, signer);
+        let r = sa_rule(w, id);
+        //@@ C20:lemma.add_signer.is_set_insert
+        &&& !sa_signers(w, id).contains(signer) && sa_signers(w2, id) == sa_signers(w, id).push(signer)
+        &&& sa_meta(w2, id) == sa_meta(w, id)
+        &&& rule_updated(w, w2, id, sa_signers(w, id).push(signer), sa_policies(w, id))
+        &&& fp_swapped(w, w2, fp_spec(r.context_type, r.signers@, r.policies@), fp_spec(r.context_type, r.signers@.push(signer), r.policies@))
+        //@@ C20:lemma.add_signer.keeps_invariant_and_limit
+        &&& inv_ids(w2) && inv_rules(w2) && sa_signers(w2, id).len() <= MAX_SIGNERS
+    }),
+{
+    broadcast use sdk_store;
+    let w2 = add_signer_post(w, id, signer);
+    let s1 = sa_signers(w, id).push(signer);
+    assert(sa_signers(w2, id) =~= s1);
+    assert(rule_updated(w, w2, id, s1, sa_policies(w, id)));
+    lemma_update_inv(w, w2, id, s1, sa_policies(w, id));
+    let r = sa_rule(w, id);
+    lemma_fp_swap(w, w2, r.context_type, r.signers@, r.policies@, s1, r.policies@);
+}
+pub proof fn lemma_remove_signer(w: World, id: u32, signer: Signer)
+    requires inv_ids(w), inv_rules(w), remove_signer_guard(w, id, signer),
+    ensures ({
+        let w2 = remove_signer_post(w, id, signer);
+        let r = sa_rule(w, id);
+        let s1 = sa_signers(w, id).remove(last_idx(sa_signers(w, id), signer));
+        //@@ C20:lemma.remove_signer.is_set_remove
+        &&& sa_signers(w, id).contains(signer) && sa_signers(w2, id) == s1 && !s1.contains(signer)
+        &&& forall|x: Signer| x != signer ==> (s1.contains(x) <==> sa_signers(w, id).contains(x))
+        &&& sa_meta(w2, id) == sa_meta(w, id)
+        &&& rule_updated(w, w2, id, s1, sa_policies(w, id))
+        &&& fp_swapped(w, w2, fp_spec(r.context_type, r.signers@, r.policies@), fp_spec(r.context_type, s1, r.policies@))
+        //@@ C20:lemma.remove_signer.keeps_invariant
+        &&& inv_ids(w2) && inv_rules(w2)
+    }),
+{
+    broadcast use sdk_store;
+    let w2 = remove_signer_post(w, id, signer);
+    let s0 = sa_signers(w, id);
+    let s1 = s0.remove(last_idx(s0, signer));
+    lemma_remove_no_dup(s0, signer);
+    assert(sa_signers(w2, id) =~= s1);
+    assert(rule_updated(w, w2, id, s1, sa_policies(w, id)));
+    lemma_update_inv(w, w2, id, s1, sa_policies(w, id));
+    let r = sa_rule(w, id);
+    lemma_fp_swap(w, w2, r.context_type, r.signers@, r.policies@, s1, r.policies@);
+}
+pub proof fn lemma_add_policy(w: World, id: u32, policy: Address, param: Val)
+    requires inv_ids(w), inv_rules(w), add_policy_guard(w, id, policy),
+    ensures ({
+        let w2 = add_policy_post(w, id, policy, param);
+        let r = sa_rule(w, id);
+        //@@ C20:lemma.add_policy.is_set_insert
+        &&& !sa_policies(w, id).contains(policy) && sa_policies(w2, id) == sa_policies(w, id).push(policy)
+        &&& sa_meta(w2, id) == sa_meta(w, id)
+        &&& rule_updated(w, w2, id, sa_signers(w, id), sa_policies(w, id).push(policy))
+        &&& fp_swapped(w, w2, fp_spec(r.context_type, r.signers@, r.policies@), fp_spec(r.context_type, r.signers@, r.policies@.push(policy)))
+        //@@ C20:lemma.add_policy.keeps_invariant_and_limit
+        &&& inv_ids(w2) && inv_rules(w2) && sa_policies(w2, id).len() <= MAX_POLICIES
+    }),
+{
+    broadcast use sdk_store;
+    let w2 = add_policy_post(w, id, policy, param);
+    let p1 = sa_policies(w, id).push(policy);
+    assert(sa_policies(w2, id) =~= p1);
+    assert(rule_updated(w, w2, id, sa_signers(w, id), p1));
+    lemma_update_inv(w, w2, id, sa_signers(w, id), p1);
+    let r = sa_rule(w, id);
+    lemma_fp_swap(w, w2, r.context_type, r.signers@, r.policies@, r.signers@, p1);
+}
+pub proof fn lemma_remove_policy(w: World, id: u32, policy: Address, ok: bool)
+    requires inv_ids(w), inv_rules(w), remove_policy_guard(w, id, policy),
+    ensures ({
+        let w2 = remove_policy_post(w, id, policy, ok);
+        let r = sa_rule(w, id);
+        let p1 = sa_policies(w, id).remove(last_idx(sa_policies(w, id), policy));
+        //@@ C20:lemma.remove_policy.is_set_remove
+        &&& sa_policies(w, id).contains(policy) && sa_policies(w2, id) == p1 && !p1.contains(policy)
+        &&& forall|x: Address| x != policy ==> (p1.contains(x) <==> sa_policies(w, id).contains(x))
+        &&& sa_meta(w2, id) == sa_meta(w, id)
+        &&& rule_updated(w, w2, id, sa_signers(w, id), p1)
+        &&& fp_swapped(w, w2, fp_spec(r.context_type, r.signers@, r.policies@), fp_spec(r.context_type, r.signers@, p1))
+        //@@ C20:lemma.remove_policy.keeps_invariant
+        &&& inv_ids(w2) && inv_rules(w2)
+    }),
+{
+    broadcast use sdk_store;
+    let w2 = remove_policy_post(w, id, policy, ok);
+    let p0 = sa_policies(w, id);
+    let p1 = p0.remove(last_idx(p0, policy));
+    lemma_remove_no_dup(p0, policy);
+    assert(sa_policies(w2, id) =~= p1);
+    assert(rule_updated(w, w2, id, sa_signers(w, id), p1));
+    lemma_update_inv(w, w2, id, sa_signers(w, id), p1);
+    let r = sa_rule(w, id);
+    lemma_fp_swap(w, w2, r.context_type, r.signers@, r.policies@, r.signers@, p1);
+}
+pub proof fn lemma_remove_rule(w: World, id: u32, fin: Seq<Call>)
+    requires inv_ids(w), inv_rules(w), remove_rule_guard(w, id),
+    ensures ({
+        let w2 = remove_rule_post(w, id, fin);
+        //@@ C20:lemma.remove_rule.is_map_remove
+        &&& rule_removed(w, w2, id)
+        &&& !sa_ids(w2, sa_meta(w, id).unwrap().context_type).contains(id)
+        //@@ C20:lemma.remove_rule.id_not_reused
+        &&& sa_next_id(w2) == sa_next_id(w) && id < sa_next_id(w2)
+        //@@ C20:lemma.remove_rule.keeps_invariant
+        &&& inv_ids(w2) && inv_rules(w2)
+    }),
+{
+    broadcast use sdk_store;
+    let w2 = remove_rule_post(w, id, fin);
+    let ct = sa_meta(w, id).unwrap().context_type;
+    let ids = sa_ids(w, ct);
+    lemma_last_idx_none(ids, id);
+    assert(ids.contains(id));
+    assert(sa_ids(w2, ct) =~= ids.remove(last_idx(ids, id)));
+    assert(last_idx(ids, id) >= 0);
+    assert(!sa_exists(w2, id));
+    assert(rules_same_except(w, w2, id));
+    assert(ids_same_except(w, w2, ct));
+    let v = ((sa_count(w) - 1) as u32).sv();
+    assert(w2.instance == iset(w, SmartAccountStorageKey::Count, v).instance);
+    assert(iget(w2, SmartAccountStorageKey::NextId) == iget(iset(w, SmartAccountStorageKey::Count, v), SmartAccountStorageKey::NextId));
+    assert(iget(w2, SmartAccountStorageKey::Count) == iget(iset(w, SmartAccountStorageKey::Count, v), SmartAccountStorageKey::Count));
+    assert(sa_next_id(w2) == sa_next_id(w));
+    assert(sa_count(w2) == sa_count(w) - 1);
+    assert(iget(w2, SmartAccountStorageKey::Count).is_some());
+    assert(rule_removed(w, w2, id));
+    lemma_remove_inv(w, w2, id);
+    assert(!sa_ids(w2, ct).contains(id)) by {
+        if sa_ids(w2, ct).contains(id) {
+            let i = choose|i: int| 0 <= i < sa_ids(w2, ct).len() && sa_ids(w2, ct)[i] == id;
+            assert(sa_exists(w2, sa_ids(w2, ct)[i]));
+        }
+    }
+}
